@@ -628,7 +628,7 @@ async fn lock_stream(case: &Case, tp: &str, ex: &RefCell<Exec>, caps: &RefCell<C
                     if !wait_inq(fd, pending) {
                         ex.borrow_mut().fail("C14:stream-mismatch", format!("{line}: {pending} bytes sent but only {} arrived", inq(fd)));
                     }
-                    let mut mems = parse_shapes(f[3]);
+                    let mems = parse_shapes(f[3]);
                     let gap = f[2].contains("vec") && has_prefilled_gap(&mems);
                     let capv = mem_caps(&mems);
                     ex.borrow_mut().tag(format!("recv-{}", f[2]));
@@ -1393,6 +1393,10 @@ async fn accept_case(line: &str, ex: Rc<RefCell<Exec>>) -> String {
             r.expect("id byte");
             clients.push(c);
         }
+        // every client is connected: the path is not needed any more
+        if let Listener::Unix(_, p) = &l {
+            let _ = std::fs::remove_file(p);
+        }
         let mut conns: Vec<S> = vec![];
         match mode {
             "single" => {
@@ -1460,9 +1464,6 @@ async fn accept_case(line: &str, ex: Rc<RefCell<Exec>>) -> String {
                 Ok(Ok(_)) => ex.borrow_mut().fail("C14:stream-mismatch", format!("{line}: a client received bytes nobody sent")),
                 Err(_) => {}
             }
-        }
-        if let Listener::Unix(_, p) = &l {
-            let _ = std::fs::remove_file(p);
         }
     }
     compio_runtime::time::sleep(Duration::from_millis(5)).await;
@@ -1701,7 +1702,20 @@ fn exec(case: &Case) -> Exec {
         ex.borrow_mut().tag(format!("zerocopy-unsupported-{}", first[1]));
     }
     let mut ex = std::mem::take(&mut *ex.borrow_mut());
-    ex.nontrivial = out.iter().any(|o| o.starts_with("n=") || o.starts_with("some") || o.contains(' '));
+    ex.nontrivial = case.lines.iter().zip(&out).any(|(l, o)| {
+        let op = l.split_whitespace().next().unwrap_or("");
+        match op {
+            "recv" | "drecv" => o.starts_with("n=") && !o.starts_with("n=0 "),
+            "dpre" => o.contains("| n="),
+            "recvm" | "drecvm" => o.starts_with("some "),
+            "mrecv" | "dmulti" => !o.is_empty() && !o.starts_with('-') && !o.starts_with("idle") && !o.starts_with("err"),
+            "conc" => !o.starts_with("a>b 0 ") || !o.contains("b>a 0 "),
+            "accept" => o.starts_with("ids=0"),
+            "rmo" => o.starts_with("data="),
+            "ms" => o.contains("item:"),
+            _ => false,
+        }
+    });
     ex.out = out;
     ex
 }
@@ -2061,7 +2075,7 @@ fn gen_ms(rng: &mut Rng, idx: usize, tp: &str, drv: &str) -> Case {
 }
 
 fn generate(tier: &str, rng: &mut Rng) -> Vec<Case> {
-    let scale = if tier == "thorough" { 5 } else { 1 };
+    let scale = if tier == "thorough" { 8 } else { 1 };
     let mut cases = vec![];
     let mut idx = 0;
     for _ in 0..(70 * scale) {
@@ -2113,7 +2127,7 @@ fn main() {
     run_harness(
         generate,
         exec,
-        "distinct by case text; non-trivial = at least one receive delivered bytes, a datagram, a connection or a stream token",
+        "distinct by case text; non-trivial = at least one receive delivered bytes (n>0 / Some / multishot item), a concurrent transfer moved bytes, a connection was accepted, or a crafted recvmsg_out buffer passed `new`",
     );
 }
 
